@@ -44,10 +44,12 @@ fn strategy(max_m: usize, max_n: usize) -> impl Strategy<Value = Case> {
         12 => weighted_set(1, max_n, true),
         1 => (1usize..=6).prop_flat_map(|n| (labels(n), tiny_weights(n)).prop_map(|(l, w)| l.into_iter().zip(w.into_iter().map(F)).collect::<Vec<_>>())),
     ];
-    (variant_strategy(), hasher_strategy(), set).prop_flat_map(move |(variant, hasher, items)| {
+    (variant_strategy(), hasher_strategy(), set, 0u32..200).prop_flat_map(move |(variant, hasher, items, huge)| {
+        // one case in 200: a very long signature with a tiny set (a single item then supplies > 65535 points)
+        let (items, mlo, mhi) = if huge == 0 { (items.into_iter().take(3).collect::<Vec<_>>(), 6000usize, 20000usize) } else { (items, min_m(variant), max_m) };
         let n = items.len();
         (
-            m_strategy(min_m(variant), max_m),
+            m_strategy(mlo.max(min_m(variant)), mhi),
             prop::collection::vec(any::<u16>(), 0..=(n + 4)),
             prop::collection::vec(any::<u16>(), 0..4),
             prop::collection::vec(any::<u8>(), 1..5),
@@ -202,22 +204,87 @@ pub fn eval(c: &Case) -> Eval {
     Ok(rep)
 }
 
+// ---------------------------------------------------------------------------------------------------------
+// ProbMinHash3aSha over keys that are not Copy (String, Vec<u8>)
+
+#[derive(Clone, Debug, Serialize, Deserialize)]
+pub struct ShaCase {
+    pub m: usize,
+    pub bytes_keys: bool,
+    pub keys: Vec<(String, F)>,
+    pub order: Vec<u16>,
+    pub cuts: Vec<u16>,
+    pub hashmap: Vec<bool>,
+}
+
+fn sha_strategy(max_m: usize) -> impl Strategy<Value = ShaCase> {
+    (crate::gen::m_strategy(2, max_m), any::<bool>(), prop::collection::btree_map(prop_oneof![3 => "[a-z]{0,6}", 1 => "\\PC{0,12}", 1 => "[ab]{1,3}"], log_uniform(-6.0, 6.0).prop_map(F), 1..40))
+        .prop_flat_map(|(m, bytes_keys, map)| {
+            let keys: Vec<(String, F)> = map.into_iter().collect();
+            let n = keys.len();
+            (prop::collection::vec(any::<u16>(), 0..=n), prop::collection::vec(any::<u16>(), 0..3), prop::collection::vec(any::<bool>(), 1..4))
+                .prop_map(move |(order, cuts, hashmap)| ShaCase { m, bytes_keys, keys: keys.clone(), order, cuts, hashmap })
+        })
+}
+
+fn sha_eval_typed<D: Clone + Eq + Ord + std::fmt::Debug + std::hash::Hash + probminhash::probminhasher::sig::Sig>(c: &ShaCase, conv: impl Fn(&str) -> D, placeholder: D) -> Eval {
+    let items: Vec<(D, f64)> = c.keys.iter().map(|(k, w)| (conv(k), w.0)).collect();
+    ensure!(items.iter().all(|p| p.0 != placeholder), "generator error: key equals the placeholder");
+    let (canon, canon_regs) = run_sha_keys(c.m, placeholder.clone(), &[(false, items.clone())]);
+    for (k, d) in canon.iter().enumerate() {
+        ensure!(items.iter().any(|p| p.0 == *d), "ProbMinHash3aSha: position {} holds {:?} which is not a key of the set", k, d);
+    }
+    let mut keyed: Vec<(u16, (D, f64))> = items.iter().enumerate().map(|(i, p)| (c.order.get(i).cloned().unwrap_or(0), p.clone())).collect();
+    keyed.sort_by_key(|k| k.0);
+    let stream: Vec<(D, f64)> = keyed.into_iter().map(|k| k.1).collect();
+    let mut cuts: Vec<usize> = c.cuts.iter().map(|x| idx16(*x, stream.len() + 1)).collect();
+    cuts.push(0);
+    cuts.push(stream.len());
+    cuts.sort_unstable();
+    cuts.dedup();
+    let batches: Vec<(bool, Vec<(D, f64)>)> = cuts.windows(2).enumerate().map(|(i, w)| (c.hashmap[i % c.hashmap.len()], stream[w[0]..w[1]].to_vec())).collect();
+    let (planned, planned_regs) = run_sha_keys(c.m, placeholder, &batches);
+    for k in 0..c.m {
+        if canon[k] != planned[k] && canon_regs[k].to_bits() != planned_regs[k].to_bits() {
+            return Err(Fail::new(format!("ProbMinHash3aSha over {} keys, m={}: position {} holds {:?} after the canonical insertion and {:?} after the plan ({} batches)", if c.bytes_keys { "Vec<u8>" } else { "String" }, c.m, k, canon[k], planned[k], batches.len())));
+        }
+    }
+    let distinct = canon.iter().collect::<std::collections::BTreeSet<_>>().len();
+    Ok(Report::new(items.len() >= 3 && distinct >= 2).class(if c.bytes_keys { "Vec<u8>-keys" } else { "String-keys" }).class_if(batches.len() > 1, "several-batches").class_if(c.hashmap.iter().any(|h| *h), "std-HashMap-entry"))
+}
+
+pub fn sha_eval(c: &ShaCase) -> Eval {
+    if c.bytes_keys {
+        sha_eval_typed::<Vec<u8>>(c, |s| s.as_bytes().to_vec(), vec![0xFF, 0xFE, 0xFD, 0xFC, 0xFB])
+    } else {
+        sha_eval_typed::<String>(c, |s| s.to_string(), String::from("\u{1}placeholder\u{2}"))
+    }
+}
+
 pub fn run(ctx: &Ctx) {
     ctx.set_rule("proptest generates (variant, hasher, m, weighted set of 1..80 distinct items with weights from the strata equal / small integers / log-uniform 1e-6..1e6 / one item 1e6..1e12 x the rest / \
         log-uniform 1e-300..1e300 / tiny (below the overflow threshold, known finding), and an execution plan: permutation, split into 1..4 batches, entry point per batch, pairs inserted twice, a power-of-two scale, a split into two overlapping parts). \
         Oracles: plan vs canonical insertion give identical signatures; ProbMinHash3 == ProbMinHash3a; scaling by 2^k (where IEEE scaling is exact) changes nothing; every position holds an item of the set; \
         signature of the union takes each position from the part with the strictly smaller register (register hook) and that register is the position-wise minimum. \
-        Non-trivial = >= 3 items, plan differs from the canonical run, signature holds >= 2 distinct items. Distinct = distinct serialised case.");
+        Non-trivial = >= 3 items, plan differs from the canonical run, signature holds >= 2 distinct items. Distinct = distinct serialised case. Second sub-check: ProbMinHash3aSha over String and Vec<u8> keys (not Copy): canonical IndexMap insertion vs a permuted, batched plan through IndexMap and std HashMap entry points; membership of every position.");
     ctx.assume("a signature difference at a position whose two registers are bit-identical is an exact floating-point tie between two items and is tolerated (counted in classes)");
     ctx.assume("cases whose largest weight lies within one decade above the overflow threshold m(ln m+40)/f64::MAX are neither asserted nor attributed (counted under excluded)");
     super::run_fixed_tier(ctx, replay);
     let (cases, max_m, max_n) = ctx.tier.pick((200_000, 256, 80), (5_000_000, 1024, 200));
     ctx.drive("plan", cases, 16, 3000, || strategy(max_m, max_n), eval);
+    // the Sha variant over keys that are not Copy
+    let cases = ctx.tier.pick(20_000, 400_000);
+    ctx.drive("sha-keys", cases, 16, 2000, || sha_strategy(64), sha_eval);
 }
 
 pub fn replay(ctx: &Ctx, sub: &str, case: &Value) -> Result<(), String> {
-    let c: Case = parse_case(case)?;
-    ctx.run_fixed(sub, &c, eval);
+    if sub == "sha-keys" {
+        let c: ShaCase = parse_case(case)?;
+        ctx.run_fixed(sub, &c, sha_eval);
+    } else {
+        let c: Case = parse_case(case)?;
+        ctx.run_fixed(sub, &c, eval);
+    }
     Ok(())
 }
 
